@@ -378,7 +378,7 @@ class kFlowDecomp(pathmodel.AbstractPathModelDAG):
             f_u_v = float(data[self.flow_attr])
 
             self.solver.add_constraint(
-                self.solver.quicksum(self.solution_weights_superset[i] * self.edge_vars[(u, v, i)] for i in range(self.k)) == f_u_v,
+                self.solver.quicksum(float(self.solution_weights_superset[i]) * self.edge_vars[(u, v, i)] for i in range(self.k)) == f_u_v,
                 name=f"10d_u={u}_v={v}",
             )
 
